@@ -87,3 +87,19 @@ package dcs
 //@ func (*dcs.zkDCS).handleSessionEvent
 //@   ensures C03.session_lost_clears_cache [C03]: ev.State != zk.StateHasSession ==> reached("Clear", 1)
 //@   ensures C03.session_frame [C03]: e_zkCreate == old(e_zkCreate) && e_zkSet == old(e_zkSet) && e_zkDelete == old(e_zkDelete)
+
+// ---- C03 / C15: the retry wrappers hand the outcome of the client operation through unchanged ------------------
+// (the effect contracts of the wrappers themselves are assumed in /verif/specs/zk.spec; what is verified here is that the
+// operation closure each of them retries returns, and stores into the wrapper's results, exactly what the
+// go-zookeeper call of that attempt returned - so "node exists", "no node" and every other error reach the callers
+// that classify them)
+//@ func (*dcs.zkDCS).retryCreate$1
+//@   assert_at return#* C03.create_outcome_unchanged [C03,C15]: reached("Create", 1) && result == resultof("Create", 1, 1) && err == resultof("Create", 1, 1) && rpath == resultof("Create", 1, 0)
+//@ func (*dcs.zkDCS).retryGet$1
+//@   assert_at return#* C03.get_outcome_unchanged [C03,C15]: reached("Get", 1) && result == resultof("Get", 1, 2) && err == resultof("Get", 1, 2) && data == resultof("Get", 1, 0) && stat == resultof("Get", 1, 1)
+//@ func (*dcs.zkDCS).retryDelete$1
+//@   assert_at return#* C03.delete_outcome_unchanged [C03,C15]: reached("Delete", 1) && result == resultof("Delete", 1) && err == resultof("Delete", 1)
+//@ func (*dcs.zkDCS).retrySet$1
+//@   assert_at return#* C15.set_outcome_unchanged [C15]: reached("Set", 1) && result == resultof("Set", 1, 1) && err == resultof("Set", 1, 1) && stat == resultof("Set", 1, 0)
+//@ func (*dcs.zkDCS).retryChildren$1
+//@   assert_at return#* C15.children_outcome_unchanged [C15]: reached("Children", 1) && result == resultof("Children", 1, 2) && err == resultof("Children", 1, 2) && children == resultof("Children", 1, 0)
